@@ -579,6 +579,7 @@ static vp::Verdict checkTok(const TokCase &c, vp::Ctx &ctx)
 
 static void registerAll()
 {
+    vp::guardExit();
     vp::add<SetCase>("charset_algebra", vp::fromEntropy<SetCase>(decodeSet), checkSet, showSet, parseSet, 1.0, vp::fuzzFromEntropy<SetCase>(decodeSet));
     vp::add<TokCase>("tokenizer_ops", vp::fromEntropy<TokCase>(decodeTok, 3.0), checkTok, showTok, parseTok, 2.0, vp::fuzzFromEntropy<TokCase>(decodeTok));
 }
